@@ -96,6 +96,7 @@ def run_unit(unit, repo='/repo', rlimit=20, extra_opts=(), timeout=600):
                                             'rewrites', 'dropped_tail', 'woven_lines')} for f in w.functions]
     res['structs'] = w.structs
     res['rewrites'] = w.rewrites
+    res['anchor_lost'] = list(getattr(w, 'anchor_lost', []))
     # assumption scan
     lines = text.split('\n')
     fnmap = scan_functions(text)
